@@ -263,6 +263,17 @@ def run(ctx):
 
     def operand(e):
         """('int'|'real'|'bool'|'raw', 'r1'|'r2') for r.as_X() / r"""
+        # a conversion of the operand to another arithmetic type changes the operation (a right shift in the unsigned
+        # domain is a logical shift; a comparison in the unsigned domain orders -1 above 1): only conversions that
+        # keep int / double / bool are looked through
+        q = peel(e)
+        while q is not None and q.get("k") == "cast":
+            ty = (q.get("ty") or "").replace("const ", "").strip()
+            if ty in ("unsigned int", "unsigned") and getattr(operand, "ring_op", False):
+                pass     # + - * << & | ^ give the same 32 bits in the unsigned domain (and avoid signed overflow)
+            elif ty and ty not in ("int", "double", "bool", "long double") and not ty.startswith("CPPExpression") and "Result" not in ty:
+                return None
+            q = peel(q.get("e"))
         e = strip_casts(e)
         if e is None:
             return None
@@ -607,7 +618,11 @@ def _binform(e, operand):
     if e is None:
         return None
     if e.get("k") == "bin":
-        a, b = operand(e["x"]), operand(e["y"])
+        operand.ring_op = e.get("op") in ("+", "-", "*", "<<", "&", "|", "^")
+        try:
+            a, b = operand(e["x"]), operand(e["y"])
+        finally:
+            operand.ring_op = False
         if a and b:
             return e["op"], a, b
     return None
